@@ -93,3 +93,32 @@ func (k *Kit) ProducerMapsConsistent() (bool, string) {
 	}
 	return true, ""
 }
+
+// CRObs is the CR committee state for the equivalence checks: Live = every
+// field of the live Committee (KeyFrame, State.StateKeyFrame, ProposalManager),
+// Frame = Committee.Snapshot() (the three key frames a checkpoint persists).
+type CRObs struct {
+	Live  *canon.Node
+	Frame *canon.Node
+}
+
+// CRSkipFields are wiring / configuration fields of the committee objects.
+var CRSkipFields = []string{
+	"Committee.Params", "Committee.CkpManager",
+	"State.params", "ProposalManager.params",
+}
+
+// CROptions are the canon options of CR state dumps.
+func CROptions() *canon.Options {
+	return &canon.Options{SkipFields: CRSkipFields, SkipTypes: []string{
+		"github.com/elastos/Elastos.ELA/common/config.Configuration",
+		"github.com/elastos/Elastos.ELA/core/checkpoint.Manager",
+	}}
+}
+
+// ObserveCR dumps the CR committee state of the kit.
+func (k *Kit) ObserveCR() *CRObs {
+	k.Activate()
+	o := CROptions()
+	return &CRObs{Live: o.Dump(k.Committee), Frame: o.Dump(k.Committee.Snapshot())}
+}
